@@ -45,6 +45,9 @@ T = {
  "C14": ("exploration", "controlled scheduler (gates on every drain() and awaited application hook; task starts, inbound deliveries and clock ticks as scheduler options) with exhaustive DFS over the first decisions + random schedules; oracle over transport tap, senders' results, journal and stored counter", "§4 C14",
          "Eleven scenarios on a fresh real connection (concurrent application senders, application and heartbeat-task TestRequests, reader servicing a ResendRequest / a Logon / a TestRequest / a gap / a wrong TestReqID) explored by stateless re-execution over all choice sequences of the first 7 (quick) / 11 (thorough) decisions, greedy afterwards, plus random schedules: new frames strictly increasing and gap-free in wire order, numbers reused only by PossDup / gap-fill retransmissions, no DuplicateSeqNoError, every new frame journaled under its number, stored next-out = highest + 1, all tasks finish.",
          "drain waiters are released FIFO; a bare asyncio.sleep(0) in the library is gated too; other un-gated suspension points (none today) would not be explored"),
+ "C07": ("fault_enumeration", "fault enumeration on two real endpoints over a frame-granular link: breaks at every frame boundary (exhaustive action sequences to a depth bound) and random walks with fault kinds per end; end-to-end oracle at quiescence (unique ids: received == accepted, in order, once; both ACTIVE; counters agree)", "§4 C07",
+         "AsyncFIXClient + AsyncFIXDummyServer with real reader/heartbeat tasks and journals that outlive every connection attempt: ALL action sequences up to depth 8/10 over {send I, send A, deliver to I, deliver to A, break, reconnect} (<= 2 sends per side, <= 2 breaks, pruned by global state hash) and random walks of 30-110 actions with up to 5 breaks (EOF / reset / broken pipe / silent / TimeoutError / OSError on read, failing drain, time passing); then forced reconnect, Logon, delivery of everything in flight, and the comparison.",
+         "exhaustive to 2 breaks, random to 5; quiescence bounded (12 rounds); the acceptor learns of a break at the latest when the initiator reconnects"),
  "C02": ("exploration", "independent strict framer as oracle on encoder output and on every tapped transport write", "§4 C02",
          "Every byte string the encoder returns for generated messages (incl. non-ASCII) and every write() of a real connection during random session histories is parsed by an independent strict FIX framer (BodyLength/CheckSum recomputed on bytes).",
          "vf.ref.fixwire is the definition of well-formed; empty values tolerated"),
